@@ -20,7 +20,7 @@ TPatch ==
   /\ l <= Len(Traces[tid].ev) /\ l' = l + 1 /\ UNCHANGED tid
   /\ RenderPatch(Traces[tid].species)
   /\ Chk("PatchRenders", Ev.ok)
-  /\ Chk("NewFieldsAreTheOtherSpecies", [k \in DOMAIN fields' |-> fields'[k]] = [k \in DOMAIN Ev.fields |-> Traces[tid].species[Ev.fields[k]]])
+  /\ Chk("NewFieldsAreTheOtherSpecies", [k \in DOMAIN fields' |-> fields'[k]] = [k \in DOMAIN Ev.fields |-> IF Ev.fields[k] \in DOMAIN Traces[tid].species THEN Traces[tid].species[Ev.fields[k]] ELSE [c |-> 0, s |-> 0]])
   /\ Chk("FieldNumbers", Ev.numbers = [k \in DOMAIN Ev.fields |-> Base + k - 1] /\ undefined' = Ev.undefined)
   /\ Chk("SpeciesCount", nspecies' = Ev.nspecies)
 TSpec == TInit /\ [][TPatch]_<<pvars2, tid, l>>
